@@ -495,16 +495,16 @@ def hist_failures(line, out):
             res.append(("C06", "crash", "op %d %s: %s" % (i, " ".join(op), cur.res)))
             res.append(("C07", "crash", "op %d %s: %s" % (i, " ".join(op), cur.res)))
         # --- boundaries never move; segments disappear only through retention / forced cleanup
-        if name not in ("tick", "retention", "delold") and removed:
+        if name not in ("tick", "retention", "delold", "retcreate", "delrace") and removed:
             res.append(("C06", "stable", "op %d %s: segments %s disappeared or changed (now %s)" % (i, " ".join(op), removed, sorted(cset))))
             res.append(("C07", "remove", "op %d %s removed segments %s" % (i, " ".join(op), removed)))
-        if name not in ("create", "tick") and added:
+        if name not in ("create", "tick", "retcreate") and added:
             res.append(("C06", "stable", "op %d %s: new or changed segments %s" % (i, " ".join(op), added)))
         pstart = {a: e for a, e in pset}
         for a, e in cset:
             if a in pstart and pstart[a] != e:
                 res.append(("C06", "stable", "op %d %s: segment starting %d changed its end %d -> %d" % (i, " ".join(op), a, pstart[a], e)))
-        if name == "create":
+        if name in ("create", "retcreate"):
             ts = int(op[1])
             if ts <= 0:
                 if cur.res != "c:EINVAL":
@@ -516,6 +516,10 @@ def hist_failures(line, out):
                     res.append(("C06", "contain", "op %d: create(%d) returned segment [%d,%d) which does not contain it" % (i, ts, a, e)))
                 if (a, e) not in cset:
                     res.append(("C06", "contain", "op %d: returned segment [%d,%d) is not in the list" % (i, a, e)))
+                    if name == "retcreate" and e > clock - dur(ttl):
+                        res.append(("C07", "remove", "op %d %s: segment [%d,%d) created while a retention run was deleting an expired "
+                                    "segment reaches past now-ttl=%d but is missing from the list afterwards" %
+                                    (i, " ".join(op), a, e, clock - dur(ttl))))
                 if len(added) > 1:
                     res.append(("C06", "stable", "op %d: create added %d segments" % (i, len(added))))
                 if (a, e) in added and grid_ok:
@@ -566,7 +570,14 @@ def hist_failures(line, out):
             ttl = (op[1], int(op[2]))
         elif name == "clock":
             clock = int(op[1])
-        elif name in ("retention", "tick"):
+        elif name == "delrace":
+            # lifecycle deleteExpiredSegments(oldest) racing DeleteOldestSegment: exactly the oldest goes
+            if pset:
+                oldest = min(pset)
+                if removed != [oldest]:
+                    res.append(("C07", "forced", "op %d delrace: lifecycle delete and forced cleanup of the oldest segment [%d,%d) "
+                                "removed %s" % (i, oldest[0], oldest[1], removed)))
+        if name in ("retention", "tick", "retcreate"):
             deadline = clock - dur(ttl)
             for (sa, se) in removed:
                 if se > deadline:
@@ -744,8 +755,47 @@ def odb_cases(rng, n, engines=("stream", "measure", "trace")):
     return [l.rstrip() for l in out]
 
 
+def rms_failure(line, out):
+    """removeSeg tie: an absent id changes nothing, a present id removes exactly it"""
+    f = line.split()
+    t = int(f[1])
+    ids = [] if f[2] == "-" else [int(x) for x in f[2].split(",")]
+    try:
+        got = [] if out == "-" else [int(x) for x in out.split(",")]
+    except ValueError:
+        return "removeSeg failed: " + out[:200]
+    want = [x for x in ids if x != t]
+    if got != want:
+        return "removeSeg(%d) on ids %s left %s; %s" % (t, ids, got, "the id is not in the list, nothing may be removed"
+                                                         if t not in ids else "exactly that id must be removed")
+    return None
+
+
+def rms_cases(rng, n):
+    out = []
+    for i in range(n):
+        k = i % 6
+        ids = sorted(rng.sample(range(1, 4000000000), k)) if k else []
+        if ids and rng.random() < 0.5:
+            t = rng.choice(ids)
+        else:
+            r = rng.random()
+            lo, hi = (ids[0], ids[-1]) if ids else (10, 20)
+            t = lo - 1 - rng.randrange(0, min(lo, 5)) if r < 0.3 and lo > 1 else hi + 1 + rng.randrange(0, 5) if r < 0.6 else rng.randrange(lo, hi + 1)
+            t = max(0, t)
+        out.append("rms %d %s" % (t, ",".join(map(str, ids)) if ids else "-"))
+    return out
+
+
 def classify(prop, line, out):
     """-> None | ("violation", msg) | ("known", id, msg)"""
+    if line.startswith("rms"):
+        if prop != "C07":
+            return None
+        if out.startswith("PANIC") or out.startswith("CRASH"):
+            return ("violation", "removeSeg crashed: " + out[:200])
+        m = rms_failure(line, out)
+        return ("violation", m) if m else None
     k0 = line.split()[0]
     if k0.startswith("wb") or k0.startswith("odb"):
         if (prop == "C06") != k0.startswith("wb"):
@@ -800,6 +850,10 @@ def branch_stats(line, out, stats):
     def c(k):
         stats[k] = stats.get(k, 0) + 1
     if line.split()[0].startswith("std"):
+        return
+    if line.startswith("rms"):
+        f = line.split()
+        c("branch:rms/%s" % ("present" if f[2] != "-" and f[1] in f[2].split(",") else "absent"))
         return
     if line.split()[0].startswith("wb"):
         ts = [int(x.split("@")[0]) for x in line.split()[4:]]
@@ -865,5 +919,9 @@ def branch_stats(line, out, stats):
             c("branch:tick/%s%s%s" % (cur.res[2:], "+removed" if pset - cset else "", "+created" if cset - pset else ""))
         elif name == "retention":
             c("branch:retention/" + ("removed-all" if pset and not cset else "removed-some" if pset - cset else "removed-none"))
+        elif name == "retcreate":
+            c("branch:retcreate/" + ("removed" if pset - cset else "nothing-expired") + ("+created" if cset - pset else ""))
+        elif name == "delrace":
+            c("branch:delrace/" + cur.res[2:])
         elif name == "delold":
             c("branch:delold/" + cur.res[2:] + ("" if len(pset) > 1 else "-keep-one" if len(pset) == 1 else "-empty"))
